@@ -165,7 +165,52 @@ prop('C14', level='other', design_ref='DESIGN.md section 6 (C14)',
      not_decided=['_compact_hashX / _compact_prefix / _compact_history row re-chunking not under deductive contract'],
      assumptions=[])
 
-for _pid in ['C01', 'C03', 'C04', 'C05', 'C07', 'C08', 'C09', 'C11']:
+_IDX_NOTE = ('Trusted: T-LDB, T-FILE, T-STRUCT, T-BISECT. The whole-index statement (induction over advance_block / flush_dbs / '
+             'backup_block) is NOT machine-checked yet: those functions are exercised by the bounded stand-in, labelled bounded.')
+prop('C01', level='other', design_ref='DESIGN.md section 6 (C01)',
+     technique='deductive verification of the component functions (activation rule, tx-number lookup; VCs from real source, z3/cvc5) '
+               '+ bounded native comparison of the whole index with an independent oracle on a real LevelDB',
+     text='is_unspendable_legacy/genesis equal the activation rule; fs_tx_hash returns the true height.  UTXO set, balances and '
+          'counts for generated chains x flush schedules are compared with a clean index (bounded).',
+     note=_IDX_NOTE, explanation='Components deductive; whole-index equality bounded (labelled).',
+     bounded=[{'obligation': 'index.c01.bounded', 'driver': 'index_scenario.py', 'request': {'mode': 'c01', 'rounds': 12},
+               'what': 'UTXOs, balances, counts, tip, chain size, headers, per-block tx hashes equal the clean index; restart',
+               'bound': '12 (thorough: 72) generated chains of 3-13 blocks (same-block spends, OP_RETURN both sides of a lowered '
+                        'activation height, zero values, empty/duplicate scripts) x random flush schedule x chunk sizes'}],
+     not_decided=['advance_block, spend_utxo, flush_utxo_db not under deductive contract'], assumptions=[])
+prop('C03', level='other', design_ref='DESIGN.md section 6 (C03)',
+     technique='deductive verification of the reorg arithmetic/pointer functions + bounded native reorg scenarios with an '
+               'independent oracle on a real LevelDB',
+     text='backup_fs moves only the pointers; reorg range arithmetic.  Index equality after generated reorg histories is bounded.',
+     note=_IDX_NOTE, explanation='Components deductive; whole-index equality bounded (labelled).',
+     bounded=[{'obligation': 'index.c03.bounded', 'driver': 'index_scenario.py', 'request': {'mode': 'c03', 'rounds': 10},
+               'what': 'after 1-3 reorgs of depth 1-3 (forced/natural, back to back) every observable equals a fresh index',
+               'bound': '10 (thorough: 60) generated chains of 6-13 blocks x random flush schedules'}],
+     not_decided=['backup_block, History.backup, flush_backup not under deductive contract'], assumptions=[])
+prop('C04', level='other', design_ref='DESIGN.md section 6 (C04)',
+     technique='deductive verification of the commit discipline components (History.flush fresh ids, clear_excess scrubbing; VCs '
+               'from real source, z3/cvc5) + bounded native crash injection at every durable write on a real LevelDB',
+     text='clear_excess removes exactly the rows above the committed flush count (C14 contract); crash points of generated flushes '
+          'incl. torn file writes are enumerated natively (bounded).',
+     note=_IDX_NOTE, explanation='Components deductive; crash-point enumeration bounded (labelled).',
+     bounded=[{'obligation': 'index.c04.bounded', 'driver': 'index_scenario.py', 'request': {'mode': 'c04', 'rounds': 16},
+               'what': 'die at each durable write of a flush (3 file writes incl. torn prefixes, history batch, UTXO batch, second '
+                       'state put), reopen, compare with the clean index at the reported height, resume, compare at the end',
+               'bound': '16 (thorough: 96) generated chains x 8 crash points x history-only/full flush'}],
+     not_decided=['flush_dbs / flush_fs / flush_utxo_db crash obligations not generated deductively yet'], assumptions=[])
+prop('C05', level='other', design_ref='DESIGN.md section 6 (C05)',
+     technique='bounded native crash injection inside flush_backup on a real LevelDB + the deductive contracts of the recovery path '
+               '(clear_excess, C14/C15 functions); the failing cut is a listed known finding',
+     text='Cuts between the history rollback and the UTXO rollback x three continuations are enumerated natively; the recovery path '
+          'functions are under contract.',
+     note=_IDX_NOTE, explanation='Bounded (labelled); KF-C05-1 listed.',
+     bounded=[{'obligation': 'index.c05.bounded', 'driver': 'index_scenario.py', 'request': {'mode': 'c05', 'rounds': 14},
+               'what': 'die between/after the two commits of flush_backup; restart; catch up on the new branch / the old branch / '
+                       'forced reorg of an unchanged chain; compare with a fresh index',
+               'bound': '14 (thorough: 84) generated chains x 2 cut points x 3 continuations'}],
+     not_decided=['flush_backup crash obligations not generated deductively'], assumptions=[])
+
+for _pid in ['C07', 'C08', 'C09', 'C11']:
     na(_pid, 'contracts for this property are not yet built in this round (planned: DESIGN.md section 6); nothing is claimed')
 na('C06', 'quantifies over cancellation instants of an asyncio task while worker-thread jobs keep running: not '
           'expressible as pre/postconditions of functions in a sequential or cooperative model (DESIGN.md section 6, C06)')
